@@ -38,6 +38,8 @@ var cmdShapes = []struct {
 	{"353", []string{"me", "=", "#chan", "@alice +bob dave!d@h.example"}},
 	{"MODE", []string{"#chan", "+o-v", "alice", "bob"}},
 	{"324", []string{"me", "#chan", "+ntk", "key"}},
+	{"324", []string{"me", "#chan", "Caf\xc3\xa9", "x"}},
+	{"MODE", []string{"#chan", "+\xe9\x80-\x80\xff", "alice"}},
 	{"352", []string{"me", "#chan", "id", "host", "srv", "alice", "H", "0 Real Name"}},
 	{"354", []string{"me", "1", "#chan", "id", "host", "alice", "acct", "Real Name"}},
 	{"TOPIC", []string{"#chan", "new topic"}},
@@ -149,7 +151,7 @@ func hostileParam(r *rand.Rand) string {
 	case 3, 4, 5:
 		return caseVariant(r, hostChans[r.Intn(len(hostChans))])
 	case 6:
-		return Pick(r, "+o", "-o", "+v", "+ntk", "-k", "+l", "+b", "+ov-v", "+q", "-", "+", "+kl", "ntl")
+		return Pick(r, "+o", "-o", "+v", "+ntk", "-k", "+l", "+b", "+ov-v", "+q", "-", "+", "+kl", "ntl", "Caf\xc3\xa9", "+\xc3\xa9t") // valid UTF-8 only: PING and JOIN echo a parameter on the wire, where invalid bytes are dropped
 	case 7:
 		return Pick(r, "*", "1", "0", "key", "5", "H", "G*", "=", "@", "acct", "%tacuhnr,1")
 	case 8:
@@ -203,7 +205,7 @@ func hostileEvent(r *rand.Rand) Ev {
 			}
 			e.Params = append(e.Params, "are supported by this server")
 		case "MODE":
-			e.Params = []string{caseVariant(r, hostChans[r.Intn(5)]), Pick(r, "+o", "-o", "+ov", "+ntk", "-k", "+l", "+b", "-b+v", "+qaohv"), hostNicks[r.Intn(8)], hostNicks[r.Intn(8)]}
+			e.Params = []string{caseVariant(r, hostChans[r.Intn(5)]), Pick(r, "+o", "-o", "+ov", "+ntk", "-k", "+l", "+b", "-b+v", "+qaohv", "+n\xe9", "Caf\xc3\xa9", "+\xff\x80-\xff"), hostNicks[r.Intn(8)], hostNicks[r.Intn(8)]}
 		case "JOIN":
 			e.Params = []string{caseVariant(r, hostChans[r.Intn(6)])}
 		case "NICK":
@@ -279,6 +281,9 @@ func historySig(evs []Ev, obs string) string {
 	return "cmds" + strconv.Itoa(len(seen)/4*4) + "/ch" + b(nch) + "/us" + b(nus)
 }
 
+// slowFailures counts wedge / no-answer verdicts of this process (each takes seconds to reach).
+var slowFailures int
+
 func init() {
 	Register(&Suite{
 		Name:  "state.hostile",
@@ -300,8 +305,16 @@ func init() {
 			if !ok {
 				return Result{Obs: "?bad-args", Sig: ""}
 			}
+			if slowFailures >= 8 {
+				// every such verdict costs seconds; a run that has seen eight of them has its answer
+				return Result{Obs: "?skipped-after-repeated-wedges", Sig: ""}
+			}
 			obs, oracle, ss := RunHistory(nick, user, evs)
-			ss.Stop()
+			if obs == "WEDGED" || obs == "NOPONG" {
+				slowFailures++ // the client is abandoned: stopping it could block on the leaked lock
+			} else {
+				ss.Stop()
+			}
 			return Result{Obs: obs, Oracle: oracle, Sig: historySig(evs, obs)}
 		},
 	})
@@ -379,6 +392,15 @@ func init() {
 			}
 			return EncodeHistory(route, "me", "user", evs)
 		},
-		Run: func(c Case) Result { return Isolated("state.liveness", c, liveDirect) },
+		Run: func(c Case) Result {
+			if slowFailures >= 8 {
+				return Result{Obs: "?skipped-after-repeated-wedges", Sig: ""}
+			}
+			res := Isolated("state.liveness", c, liveDirect)
+			if res.Obs == "WEDGED" || res.Obs == "NOPONG" {
+				slowFailures++
+			}
+			return res
+		},
 	})
 }
